@@ -14,6 +14,12 @@ enum L {
     ArbiterDisconnect,
     ResolveOldest(&'static str),
     ResolveNewest(&'static str),
+    /// the connected arbiter goes and a new one registers (one letter, so that sequences with
+    /// several registrations stay within the depth bound)
+    ArbiterReconnect,
+    /// `snapshot false t` carried out: what is on disk decides whether a removed conflict record
+    /// leaves a tombstone behind
+    Snapshot,
 }
 
 #[derive(Clone, Debug, PartialEq, Eq, PartialOrd, Ord)]
@@ -102,7 +108,7 @@ impl SeqModel for C13 {
     fn enabled(&self, w: &W, letter: usize) -> bool {
         match &self.letters[letter] {
             L::ArbiterConnect => w.arbiter.is_none(),
-            L::ArbiterDisconnect => w.arbiter.is_some(),
+            L::ArbiterDisconnect | L::ArbiterReconnect => w.arbiter.is_some(),
             L::ResolveOldest(k) => w.arbiter.is_some() && w.unresolved.get(*k).map(|u| !u.is_empty()).unwrap_or(false),
             L::ResolveNewest(k) => w.arbiter.is_some() && w.unresolved.get(*k).map(|u| u.len() >= 2).unwrap_or(false),
             _ => true,
@@ -183,7 +189,23 @@ impl SeqModel for C13 {
                 w.unresolved.entry(key).or_default().push(Notice { id, version: parsed.1, proposed: val });
                 vec![]
             }
-            L::ArbiterConnect => {
+            L::Snapshot => {
+                let o = w.admin.exec(&w.node, "snapshot false t");
+                w.node.run_snapshot_queue();
+                w.node.drain_queues();
+                if o.resp != "Ok" {
+                    return v("reply-mismatch", format!("snapshot: {:?}", o));
+                }
+                vec![]
+            }
+            L::ArbiterConnect | L::ArbiterReconnect => {
+                if let L::ArbiterReconnect = &l {
+                    let mut a = w.arbiter.take().unwrap();
+                    let o = a.disconnect(&w.node);
+                    if o.panic.is_some() {
+                        return v("panic", format!("arbiter disconnect: {:?}", o));
+                    }
+                }
                 let mut a = Session::new();
                 a.exec(&w.node, "use-db t tok");
                 let o = a.exec(&w.node, "arbiter");
@@ -311,6 +333,8 @@ pub fn run(run: &mut Run) {
     }
     letters.push(L::ArbiterConnect);
     letters.push(L::ArbiterDisconnect);
+    letters.push(L::ArbiterReconnect);
+    letters.push(L::Snapshot);
     let m = C13 { letters };
     let cfg = SeqConfig { max_depth: if quick { 7 } else { 9 }, workers: crate::util::workers(), max_states: 3_000_000, budget: std::time::Duration::from_secs(if quick { 40 } else { 1200 }) };
     let res = explore(&m, &cfg);
